@@ -236,6 +236,9 @@ func preemptScenariosFor(prop string) []scn {
 	case "C06":
 		v1(flowParams{Sources: 1, Records: 2, Batch: 1, Dests: 1, AckMenu: []string{"ok", "defer"}, Stop: "stopwait"}, 1, 2)
 		v2(flowParams{Sources: 1, Records: 2, Batch: 1, Dests: 1, AckMenu: []string{"ok", "defer"}, Stop: "stopwait"}, 1, 2)
+		// two sources share the persister: the final flush of one connector's teardown and the other connector's writes
+		v1(flowParams{Sources: 2, Records: 1, Batch: 1, Dests: 1, AckMenu: onlyOK, Stop: "stopwait", PointOnly: []string{"source.go", "persister.go"}, MaxOcc: 8}, 0, 1)
+		v2(flowParams{Sources: 2, Records: 1, Batch: 1, Dests: 1, AckMenu: onlyOK, Stop: "stopwait", PointOnly: []string{"source.go", "persister.go"}, MaxOcc: 8}, 0, 1)
 	case "C01", "C04":
 		v1(flowParams{Sources: 1, Records: 2, Batch: 1, Dests: 1, AckMenu: []string{"ok", "defer", "nack"}, Stop: ""}, 1, 2)
 		if prop == "C04" || verifkit.Thorough() {
